@@ -15,16 +15,16 @@ ASSUMPTIONS = [
     "inequalities are asserted only where every involved slice has variances / covariance eigenvalues above 1e-8 x scale^2 (property: well above the variance floor); skipped cases are counted",
 ]
 
-COSTS = ["L2Cost", "GaussianVarCost", "GaussianCovCost", "L1Cost", "TrendL2", "MemoAbs"]
+COSTS = ["L2Cost", "GaussianVarCost", "GaussianCovCost", "L1Cost", "TrendL2", "MemoAbs", "ModalL1"]
 
 
 def make_cost(name, param=None, extra=None):
     """`extra`: value of the user cost's additional hyper-parameter (ignored by built-in costs)."""
-    if name == "L1Cost":
-        from userdefs.scorers import L1Cost
+    if name in ("L1Cost", "ModalL1"):
+        from userdefs.scorers import L1Cost, ModalL1Cost
 
         p = None if param is None else param["mean"]
-        return L1Cost(p if p is None or not isinstance(p, list) else list(p), 1.0 if extra is None else extra)
+        return (L1Cost if name == "L1Cost" else ModalL1Cost)(p if p is None or not isinstance(p, list) else list(p), 1.0 if extra is None else extra)
     if name == "MemoAbs":  # user cost that memoises and returns its cached arrays
         from userdefs.scorers import MemoisingAbsCost
 
@@ -39,7 +39,7 @@ def make_cost(name, param=None, extra=None):
 
 
 def cost_min_size(name, p):
-    return 1 if name in ("L1Cost", "TrendL2", "MemoAbs") else c01.min_size_of(name, p)
+    return 1 if name in ("L1Cost", "TrendL2", "MemoAbs", "ModalL1") else c01.min_size_of(name, p)
 
 
 def to_container(X, container, int64=False):
@@ -97,19 +97,19 @@ def base_case(draw, tier, kind, costs=COSTS, param_mode="none"):
     else:
         cuts = draw(c01.intervals(n, ms, max_batch=8))
     case = {"cost": cost, "cuts": cuts, "container": draw(st.sampled_from(["ndarray", "DataFrame"])),
-            "extra": draw(st.sampled_from([2.5, 1.0, 0.5])) if cost in ("L1Cost", "TrendL2") else None}
+            "extra": draw(st.sampled_from([2.5, 1.0, 0.5])) if cost in ("L1Cost", "TrendL2", "ModalL1") else None}
     # fixed parameter of the cost (drawn before the bulk data, see strategies/data.py)
     case["param"] = None
     if param_mode == "always" or (param_mode == "sometimes" and draw(st.integers(0, 2)) == 0):
         if cost == "MemoAbs":
             case["param"] = {"mean": draw(st.floats(-5, 5, allow_nan=False))}
-        elif cost in ("L1Cost", "TrendL2"):
+        elif cost in ("L1Cost", "TrendL2", "ModalL1"):
             case["param"] = {"mean": draw(st.one_of(st.floats(-5, 5, allow_nan=False),
                                                     st.lists(st.floats(-5, 5, allow_nan=False), min_size=p, max_size=p)))}
         else:
             case["param"] = draw(c01.fixed_param(cost, p))
     # integer-valued data of the size of byte / event counts (2e7 .. 4e8), handed over as an int64 array or frame
-    counts = cost in ("L2Cost", "L1Cost", "TrendL2", "MemoAbs") and draw(st.integers(0, 7)) == 0
+    counts = cost in ("L2Cost", "L1Cost", "TrendL2", "MemoAbs", "ModalL1") and draw(st.integers(0, 7)) == 0
     if counts:
         X = draw(D.exact_matrix(n, p, dyadic=False))
         case["X"] = [[(v + 10) * 2e7 for v in row] for row in X]
